@@ -135,4 +135,21 @@ theorem desired_cons_same (r : Int) (S : List Int) (k : Int) (h1 : 1 ≤ r) (hk 
   rw [desired_cons_erase r S k h1 hk] at hlt
   exact ⟨n, hn, hn0, hnS, hlt⟩
 
+/-- scaling by any amount never renumbers: the smaller desired set is a prefix of the larger one, everything beyond it is higher -/
+theorem desired_prefix (r : Int) (S : List Int) (d : Nat) (hr : 0 ≤ r) :
+    ∃ L, desired (r + d) S = desired r S ++ L ∧ L.length = d ∧ ∀ o ∈ desired r S, ∀ n ∈ L, o < n := by
+  induction d with
+  | zero => exact ⟨[], by simp, rfl, by simp⟩
+  | succ d ih =>
+    obtain ⟨L, hL, hlen, hlt⟩ := ih
+    obtain ⟨n, hn, -, -, hnlt⟩ := desired_succ (r + d) S (by omega)
+    have e : r + ((d + 1 : Nat) : Int) = r + d + 1 := by push_cast; ring
+    refine ⟨L ++ [n], by rw [e, hn, hL, List.append_assoc], by simp [hlen], ?_⟩
+    intro o ho m hm
+    rcases List.mem_append.1 hm with hm | hm
+    · exact hlt o ho m hm
+    · have : m = n := by simpa using hm
+      subst this
+      exact hnlt o (by rw [hL]; exact List.mem_append_left _ ho)
+
 end Asts
